@@ -26,7 +26,11 @@ Not decided: what the file-system calls do on disk; the lifecycle's restore mode
 The rows of R3 are the success outcomes of cached_layer split on every private helper of the handler's module that the
 returned value or a dominating decision depends on (C01_helpers.outcomes2), located by call frame; written values are read
 in normal form (C01_helpers.norm / frame_of), the dispatch into the handler is read as an effect of the entry points.  None
-of it depends on how the handler is cut into functions or on which of `x.f = v` / `S { f: v, ..rest of x }` is written.
+of it depends on how the handler is cut into functions or on which of `x.f = v` / `S { f: v, ..rest of x }` is written
+(also inside a closure handed to a shared read-transform-write helper: `|mut x| { x.f = v; x }`, C01_helpers.apply_fn).
+"Re-dispatch" is the handler calling itself *or* the handler's body being a loop whose back edge is equivalent to that
+call — nothing but the unmodified arguments is live at the loop header (C01_helpers.restart_loops, checked on the facts);
+the back edge is then a success site with the value of the recursive call and every row is read within one iteration.
 
 Effects are taken from C01_helpers.Effects2 and path classes from C01_helpers.WorklistPaths: a directory traversal driven
 by an explicit stack (a local work-list that is drained before the function succeeds) yields the same MUST effects and
